@@ -3,16 +3,25 @@
 //! executions of the real code against the reference model in `vref`.
 
 mod collect;
+mod cprp;
 mod dec;
 mod gen;
 mod mon;
 mod obs;
+mod rdr;
 mod run;
+mod trk;
+mod vclock;
 
 use std::path::PathBuf;
 
 #[global_allocator]
 static ALLOC: mon::CountingAlloc = mon::CountingAlloc;
+
+/// Class label of a byte string according to the reference model (for signatures).
+pub fn obs_class(g: &vref::altitude::Gillham, bytes: &[u8]) -> String {
+    vref::expect::expect(g, bytes).class
+}
 
 fn main() {
     let args: Vec<String> = std::env::args().collect();
@@ -72,6 +81,9 @@ fn main() {
     let _ = std::fs::remove_dir_all(&replay_dir);
     let code = match prop.as_str() {
         "C01" | "C02" | "C03" | "C04" | "C06" | "C07" | "C08" | "C09" | "C10" | "C11" => dec::run(&ctx),
+        "C19" => rdr::run(&ctx),
+        "C05" => cprp::run(&ctx),
+        "C12" | "C13" | "C14" | "C15" => trk::run(&ctx),
         other => {
             eprintln!("unknown command {other}");
             2
